@@ -24,14 +24,24 @@ from .. import REPO_ROOT
 def _apply(variant, root=REPO_ROOT):
     """Returns overlay dict or None when stale."""
     overlay = {}
-    for rel, old, new in variant["edits"]:
+    for edit in variant["edits"]:
+        rel, old, new = edit[:3]
+        everywhere = len(edit) > 3 and edit[3] == "all"
         src = overlay.get(rel)
         if src is None:
             with open(os.path.join(root, rel), encoding="utf-8") as fh:
                 src = fh.read()
-        if src.count(old) != 1:
-            return None
-        src = src.replace(old, new)
+        if everywhere:
+            # identifier rename: whole-word, every occurrence (at least one)
+            import re
+
+            src, k = re.subn(r"(?<![A-Za-z0-9_])" + re.escape(old) + r"(?![A-Za-z0-9_])", new, src)
+            if k == 0:
+                return None
+        else:
+            if src.count(old) != 1:
+                return None
+            src = src.replace(old, new)
         try:
             ast.parse(src)
         except SyntaxError:
